@@ -176,6 +176,10 @@ func refVariance(c, p []int, maxInd float64) (score float64, inf bool, borderlin
 		return math.Inf(1), true, false
 	}
 	limit := maxInd * float64(total) // scaled by plen like dev_i
+	// When the unit width total/plen is an integer and the limit is a dyadic fraction, every
+	// quantity of the float computation is exact, so an exact tie is not a rounding question:
+	// "deviates by MORE than the allowed variance" is false for it and the score is finite.
+	exact := total%plen == 0 && maxInd*8 == math.Trunc(maxInd*8)
 	sum := 0
 	for i := range c {
 		d := c[i]*plen - p[i]*total
@@ -183,7 +187,9 @@ func refVariance(c, p []int, maxInd float64) (score float64, inf bool, borderlin
 			d = -d
 		}
 		diff := float64(d) - limit
-		if math.Abs(diff) <= 1e-9*math.Max(1, limit) {
+		if exact && diff == 0 {
+			// tie, exactly representable: within the allowed variance
+		} else if math.Abs(diff) <= 1e-9*math.Max(1, limit) {
 			borderline = true
 		} else if diff > 0 {
 			inf = true
@@ -254,7 +260,7 @@ func c20SelfTest() error {
 	return nil
 }
 
-var c20Limits = []float64{0.2, 0.45, 0.5, 0.7, 0.8}
+var c20Limits = []float64{0.2, 0.45, 0.5, 0.7, 0.8, 0.25, 0}
 
 // typical patterns of the symbologies (module widths), typed from the standards
 var c20Patterns = map[int][][]int{
@@ -306,7 +312,7 @@ func c20CheckOne(r *fw.Rec, c, p []int, lim float64) bool {
 
 func c20(c *fw.Ctx) {
 	c.Rule("RecordPattern/RecordPatternInReverse: seeded random rows of every length 0..300 (all-white, all-black, pixel noise, run structures with max run 2/4/9/40), every start offset, counter lengths 1..10, compared with a run-length model on []bool; PatternMatchVariance: all counter vectors with entries 0..6 for lengths 3..6 (exhaustive) x typical symbology patterns x 5 variance limits, random vectors with entries up to 40, scale factors 2..9, compared with the contract evaluated exactly (integer arithmetic, cross-checked against big.Rat in the self-test); distinct = distinct rows + distinct (counters, pattern, limit)")
-	c.Assume("DESIGN C20 don't-care regions: reverse recording when the runs begin exactly at index 0; comparisons within 1e-9 relative of the individual-variance limit")
+	c.Assume("DESIGN C20 don't-care regions: reverse recording when the runs begin exactly at index 0; comparisons within 1e-9 relative of the individual-variance limit (except exact ties with an integer unit width and a dyadic limit, where the float computation is exact and the tie counts as within the limit)")
 	rowsPer := c.Pick(10, 100)
 	for n := 0; n <= 300; n++ {
 		for k := 0; k < rowsPer; k++ {
